@@ -19,6 +19,10 @@ static inline int vf_clzll(unsigned long long x) { int n = 0; if (x == 0) return
   if ((x >> 62) == 0) { n += 2; x <<= 2; } if ((x >> 63) == 0) { n += 1; } return n; }
 static inline int vf_ctz(unsigned x) { return x == 0 ? 32 : vf_ctzll(x); }
 static inline int vf_clz(unsigned x) { return x == 0 ? 32 : vf_clzll(x) - 32; }
+static inline int vf_popcountll(unsigned long long x) { x = x - ((x >> 1) & 0x5555555555555555ULL);
+  x = (x & 0x3333333333333333ULL) + ((x >> 2) & 0x3333333333333333ULL); x = (x + (x >> 4)) & 0x0F0F0F0F0F0F0F0FULL;
+  return (int)((x * 0x0101010101010101ULL) >> 56); }
+static inline int vf_popcount(unsigned x) { return vf_popcountll(x); }
 void *vf_operator_new(size_t size, size_t align);
 void vf_operator_delete(void *p, size_t size);
 void vf_fence(int order, int site);
